@@ -799,6 +799,23 @@ impl<'a> Ev<'a> {
             }
             let (info, f) = found.ok_or("no LocaleKeys impl")?;
             self.call_fn(info, f, None, vec![loc])
+        } else if ends_with(n, &["Locale", "as_str"]) && args.len() == 1 {
+            // trait call `leptos_i18n::Locale::as_str(l)`: dispatches to the generated `impl Locale for <enum>`
+            let mut found = None;
+            for info in &self.idx.impls {
+                if info.trait_name.as_deref() == Some("Locale") {
+                    for it in &info.imp.items {
+                        if let syn::ImplItem::Fn(f) = it {
+                            if f.sig.ident == "as_str" {
+                                found = Some((info, f));
+                            }
+                        }
+                    }
+                }
+            }
+            let (info, f) = found.ok_or("no impl Locale with as_str")?;
+            let recv = args.into_iter().next();
+            self.call_fn(info, f, recv, vec![])
         } else if n.len() == 1 && (last == "Ok" || last == "Err" || last == "Some") {
             Ok(Val::Variant(vec![last.to_string()], args))
         } else if n.iter().any(|s| s == "either") {
